@@ -212,7 +212,8 @@ class Exec(StmtMixin):
                 g = z3.Not(self.spec_bool(when, self.entry, old=self.entry))
                 self.oblige(st, "raises", "%s:must-raise" % lbl, g, line, assume=False)
         auto = self.class_inv(c.self_cls) if (c.self_cls and not c.no_class_inv) else []
-        for lbl, e in auto + list(c.ensures_):
+        # (internal postconditions may speak of this activation's ghost state; callers never see them)
+        for lbl, e in auto + list(c.ensures_) + list(getattr(c, "ensures_internal_", [])):
             g = self.spec_bool(e, st, extra=extra, old=self.entry)
             self.oblige(st, "post", lbl, g, line, assume=False)
 
